@@ -1,6 +1,5 @@
 """C11 — IP-restricted automation certificates work only from their netblocks."""
 import json
-import time
 from . import common as c
 
 V4AFI = bytes([0, 1, 1])
@@ -215,6 +214,8 @@ def gen_lib(ctx, n_mint, n_wire, n_raw):
         for _ in range(rng.choice([1, 1, 2, 3])):
             m = rng.randrange(6)
             pos = rng.randrange(len(der)) if der else 0
+            if len(der) > 10 and rng.random() < 0.6:
+                pos = rng.randrange(9, len(der))      # inside the address list: keeps the outer structure parseable more often
             if m == 0 and der:
                 der[pos] ^= 1 << rng.randrange(8)
             elif m == 1 and der:
@@ -296,21 +297,7 @@ def canon_cidr_strings(rng, nets):
     return out
 
 
-# --------------------------------------------------------------------------- harness with retry
-
-def harness(ctx, pkg, test, ops, **kw):
-    """The test package of cmd/keymasterd listens on a fixed port in an init(); a concurrent run of
-    another check makes the binary die before any test starts. Retry those."""
-    for attempt in range(8):
-        nn = len(ctx.notes)
-        lines, log, rc = c.run_harness(ctx, pkg, test, ops, **kw)
-        if rc != 0 and "dependency_monitor_test.go" in log and len(lines) < len(ops):
-            del ctx.notes[nn:]
-            time.sleep(2 + attempt)
-            continue
-        return lines, log, rc
-    return lines, log, rc
-
+# --------------------------------------------------------------------------- helpers
 
 def kv(line):
     return dict(x.split("=", 1) for x in line.split() if "=" in x)
@@ -339,7 +326,7 @@ def run(ctx):
 
     # ------------------------------------------------------------------ library level
     lops = [o[1] for o in lib]
-    impl, log, rc = harness(ctx, "lib/certgen", "C11Lib", lops)
+    impl, log, rc = c.run_harness(ctx, "lib/certgen", "C11Lib", lops)
     if rc != 0 or len(impl) != len(lops):
         ctx.broken.append("harness TestVerifC11Lib did not complete (exit %d, %d/%d lines)" % (rc, len(impl), len(lops)))
         return c.finish(ctx)
@@ -435,7 +422,7 @@ def run(ctx):
         else:
             gets.append(([ctx.rng.choice(["10.1.2.3", "10.0.0.0/33", "banana", "10.0.0/8", ""])], None, 400))
     hops += ["get %s" % c.hexs(",".join(s)) for s, _, _ in gets]
-    himpl, log, rc = harness(ctx, "cmd/keymasterd", "C11", hops)
+    himpl, log, rc = c.run_harness(ctx, "cmd/keymasterd", "C11", hops)
     if rc != 0 or len(himpl) != len(hops):
         ctx.broken.append("harness TestVerifC11 did not complete (exit %d, %d/%d lines)" % (rc, len(himpl), len(hops)))
         return c.finish(ctx)
